@@ -455,6 +455,24 @@ def templates():
     out.append({"rules": [{"head": ("q", [V("X"), V("Z")]),
                            "body": [("pos", "a", [V("X"), V("Y")]), ("pos", "c", [V("Y")]), ("pos", "b", [V("Y"), V("Z")]),
                                     ("neg", "c", [V("X")]), ("neg", "e", [V("Z"), V("X")])]}], "query": "q"})
+    # negated atoms with repeated variables, constants and anonymous variables in every position
+    X, Y = V("X"), V("Y")
+    negs = [
+        ([("pos", "c", [X])], ("neg", "e", [X, X]), [X]),
+        ([("pos", "a", [X, Y])], ("neg", "b", [Y, Y]), [X, Y]),
+        ([("pos", "c", [X])], ("neg", "d", [X, ("wild",), X]), [X]),
+        ([("pos", "a", [X, Y])], ("neg", "e", [X, C(1)]), [X, Y]),
+        ([("pos", "a", [X, Y])], ("neg", "e", [("wild",), Y]), [X, Y]),
+        ([("pos", "a", [X, Y])], ("neg", "e", [Y, X]), [X, Y]),
+        ([("pos", "a", [X, Y]), ("pos", "c", [X])], ("neg", "d", [Y, X, ("wild",)]), [X, Y]),
+        ([("pos", "a", [X, Y])], ("neg", "c", [Y]), [Y, X]),
+    ]
+    for pos, neg, head in negs:
+        out.append({"rules": [{"head": ("q", head), "body": pos + [neg]}], "query": "q"})
+        out.append({"rules": [{"head": ("v", [X, Y] if len(neg[2]) > 1 else [X]),
+                               "body": [("pos", neg[1], [X, Y] + [("wild",)] * (len(neg[2]) - 2) if len(neg[2]) > 1 else [X])]},
+                              {"head": ("q", head), "body": pos + [("neg", "v", [t for t in neg[2]][:2] if len(neg[2]) > 1 else neg[2])]}],
+                    "query": "q"})
     # atoms carrying two constants / a constant and a repeated variable, joined with another atom
     multi = [
         [("pos", "d", [V("X"), C(1), C(2)]), ("pos", "b", [V("X"), V("Y")])],
@@ -595,6 +613,29 @@ def rec_templates():
                         rules = [dict(r) for r in base] + [{"head": ("r", head), "body": body},
                                                            {"head": ("q", [V("X"), V("Y")]), "body": [("pos", "r", [V("X"), V("Y")])]}]
                         out.append({"rules": rules, "query": "q"})
+                        if bi == 0 or (not eflip and not rflip):
+                            # the same program asked through the handler's bound-query form (magic sets)
+                            for which in (0, 1):
+                                qargs = [V("_c0"), V("Y")] if which == 0 else [V("X"), V("_c0")]
+                                rules2 = rules[:-1] + [{"head": ("__query__", qargs),
+                                                        "body": [("pos", "r", qargs), ("cmp", V("_c0"), "=", C(1))]}]
+                                out.append({"rules": rules2, "query": "__query__"})
+    # symmetric closure and a filtered recursive clause, plain and bound
+    extra = [
+        [{"head": ("r", [V("X"), V("Y")]), "body": [("pos", "e", [V("X"), V("Y")])]},
+         {"head": ("r", [V("X"), V("Y")]), "body": [("pos", "r", [V("Y"), V("X")])]}],
+        [{"head": ("r", [V("X"), V("Y")]), "body": [("pos", "e", [V("X"), V("Y")])]},
+         {"head": ("r", [V("X"), V("Z")]), "body": [("pos", "r", [V("X"), V("Y")]), ("pos", "e", [V("Y"), V("Z")]), ("cmp", V("X"), "!=", V("Z"))]}],
+        [{"head": ("r", [V("X"), V("Y")]), "body": [("pos", "e", [V("X"), V("Y")])]},
+         {"head": ("r", [V("X"), V("Z")]), "body": [("pos", "r", [V("X"), V("Y")]), ("pos", "e", [V("Y"), V("Z")])]},
+         {"head": ("r", [V("X"), V("Y")]), "body": [("pos", "b", [V("X"), V("Y")])]}],
+    ]
+    for rs in extra:
+        out.append({"rules": rs + [{"head": ("q", [V("X"), V("Y")]), "body": [("pos", "r", [V("X"), V("Y")])]}], "query": "q"})
+        for which in (0, 1):
+            qargs = [V("_c0"), V("Y")] if which == 0 else [V("X"), V("_c0")]
+            out.append({"rules": rs + [{"head": ("__query__", qargs), "body": [("pos", "r", qargs), ("cmp", V("_c0"), "=", C(1))]}],
+                        "query": "__query__"})
     return out
 
 
